@@ -594,7 +594,7 @@ Section Sys.
                      (delivered r ++ data) in
       let s1 := set_re s r1 in
       let ok_chunks := match sp with None => true | Some l => dg_resume_chunks (lenN l) (lowc r1) end in
-      ((if dg_resume_size (rsize r1) (low r1) && ok_chunks then resume_reading fuel s1 else s1), data)
+      ((if (dg_resume_size (rsize r1) (low r1) || (dg_resume_when_empty && isnil buf')) && ok_chunks then resume_reading fuel s1 else s1), data)
     end.
 
   Fixpoint take_k (fuel : nat) (k : nat) (s : st) (acc : bytes) : st * bytes :=
